@@ -155,3 +155,59 @@ func TestFlattenReference(t *testing.T) {
 		t.Errorf("flatten = %v", got)
 	}
 }
+
+// TestPreflightCacheModel: the CORS-preflight cache of the caching browser
+// against a hand-written table (Fetch, "CORS-preflight cache": cache entry
+// match, method / header-name cache entry match, max-age).
+func TestPreflightCacheModel(t *testing.T) {
+	anon := Intent{Origin: "https://a.example", Method: "PUT"}
+	cred := Intent{Origin: "https://a.example", Method: "PUT", Creds: true}
+	otherOrigin := Intent{Origin: "https://b.example", Method: "PUT"}
+	pc := &preflightCache{cap: 7200}
+	pc.store(anon, "u", []string{"PUT", "*"}, []string{"x-foo", "*"}, 10) // stored without credentials at t=0
+	type tc struct {
+		name   string
+		in     Intent
+		url    string
+		now    int
+		method string
+		header string
+		want   bool
+	}
+	for _, c := range []tc{
+		{"listed method", anon, "u", 0, "PUT", "", true},
+		{"wildcard method entry covers another method without credentials", anon, "u", 9, "DELETE", "", true},
+		{"expired exactly at max-age", anon, "u", 10, "PUT", "", false},
+		{"other URL", anon, "v", 0, "PUT", "", false},
+		{"other origin", otherOrigin, "u", 0, "PUT", "", false},
+		{"entry stored without credentials does not serve a credentialed request", cred, "u", 0, "PUT", "", false},
+		{"listed header, case-insensitive", anon, "u", 0, "", "X-Foo", true},
+		{"wildcard header entry covers an unlisted name", anon, "u", 0, "", "x-bar", true},
+		{"wildcard header entry never covers authorization", anon, "u", 0, "", "authorization", false},
+	} {
+		pc.now = c.now
+		var got bool
+		if c.method != "" {
+			got = pc.methodMatch(c.in, c.url, c.method)
+		} else {
+			got = pc.headerMatch(c.in, c.url, c.header)
+		}
+		if got != c.want {
+			t.Errorf("%s: got %v, want %v", c.name, got, c.want)
+		}
+	}
+	// an entry stored WITH credentials serves credentialed and anonymous requests; its `*` is a literal
+	pc2 := &preflightCache{cap: 600}
+	pc2.store(cred, "u", []string{"PUT", "*"}, []string{"*"}, 100000) // capped to 600
+	pc2.now = 599
+	if !pc2.methodMatch(cred, "u", "PUT") || !pc2.methodMatch(anon, "u", "PUT") {
+		t.Errorf("credentialed entry must match both credentials modes")
+	}
+	if pc2.methodMatch(cred, "u", "DELETE") || pc2.headerMatch(cred, "u", "x-foo") {
+		t.Errorf("`*` stored with credentials is not a wildcard")
+	}
+	pc2.now = 600
+	if pc2.methodMatch(cred, "u", "PUT") {
+		t.Errorf("max-age must be capped by the user agent's limit")
+	}
+}
